@@ -210,7 +210,10 @@ CLAIMED = {
                 "of the first failing operation: from this very call, never a panic, never a success), C12_finalize_any, "
                 "C12_retry (a failed finalize leaves the writer dirty and the record regions intact - any partially rewritten "
                 "header slot - so calling it again on working destinations completes both files byte for byte as an undisturbed "
-                "run), C12_reachable, C12_drop, C12_chunking (write_all over short writes delivers exactly the bytes). Tie: for "
+                "run), C12_failed_finalize_harmless (after a finalize that failed, once the destinations work, EVERY continuation - "
+                "more writes, accepted or rejected, finalizes anywhere, drop - returns what it returns in the undisturbed run and "
+                "leaves exactly the undisturbed files; false on the pinned tree, repaired by fix 276a00f), C12_reachable, C12_drop, "
+                "C12_chunking (write_all over short writes delivers exactly the bytes). Tie: for "
                 "EVERY k over the operations each workload really issues on each destination, one-shot and persistent, with "
                 "heal + retry; short-write schedules incl. the 19/20/21-byte boundary of the header padding.",
         "note": COMMON_NOTE + "write_all and its WriteZero/Interrupted handling are std code, modelled (write_all_loop). A "
